@@ -399,7 +399,7 @@ Record ctl := mkCtl {
 }.
 
 Inductive startch :=
-| SQ                          (* '?'  (falsy input 0, or an unnamed control slot) *)
+| SQ                          (* '?'  (an unnamed control slot) *)
 | SConst (w : Z)              (* a constant *)
 | SName (n : bytes)           (* name of the control it reads *)
 | SUgen (u c : Z).            (* some other unit's output *)
@@ -467,7 +467,7 @@ Definition start_of (consts : list Z) (cs : list ctl) (before : list ugen) (i : 
   match i with
   | IConst k =>
     match nth_z consts k with
-    | Some w => Some (if word_is_zero w then SQ else SConst w)
+    | Some w => Some (SConst w)      (* REPAIRED: `starting_channel or '?'` turned bus 0 into '?' *)
     | None => None
     end
   | IOut u c =>
@@ -653,11 +653,14 @@ Definition declared_ok (ds : option desc) (decl : list (bytes * Z * Z * list Z))
                       | None => false
                       end) decl
     && Bool.eqb (ds_gate d) (existsb (fun p => let '(n, _, _, _) := p in bytes_eqb n gate_name) decl)
+    (* the name table lists the parameters in declaration order *)
+    && list_eqb bytes_eqb (ds_cnames d) (List.map (fun p => let '(n, _, _, _) := p in n) decl)
   end.
 
 Definition check_case (bs : bytes) (order : list (Z * bool)) (libdesc : option desc)
            (names3 : list (bytes * Z * Z)) (vsrc : list (bytes * list (bytes * list Z)))
-           (decl : list (bytes * Z * Z * list Z)) (libname : option bytes) : Z :=
+           (decl : list (bytes * Z * Z * list Z)) (libname : option bytes)
+           (wantname : bytes) (truth : list ugen) (truthk : list Z) : Z :=
   match parse_def bs with
   | Err _ => 1                                                     (* real bytes do not parse *)
   | Ok d =>
@@ -667,6 +670,10 @@ Definition check_case (bs : bytes) (order : list (Z * bool)) (libdesc : option d
     if negb (opt_eqb desc_eqb (read_desc bs) libdesc) then 5 else  (* library reader <> read_desc *)
     if negb (declared_ok (read_desc bs) decl) then 7 else          (* recovered controls <> declared parameters *)
     if negb (opt_eqb bytes_eqb (def_name_of bs) libname) then 8 else (* def_name_from_bytes <> def_name_of *)
+    (* the parsed fields against the live objects: unit (class, rate number, inputs, outputs, special index)
+       in order, constant table, definition name *)
+    if negb (list_eqb ugen_eqb (d_units d) truth && list_eqb Z.eqb (d_consts d) truthk) then 9 else
+    if negb (bytes_eqb (d_name d) wantname) then 10 else
     if list_eqb variant_eqb (resolve_variants (d_name d) (d_ctl d) names3 vsrc) (d_variants d) then 0 else 6
   end.
 
@@ -682,3 +689,16 @@ Definition expect_bytes (base : bytes) (name : bytes) (names3 : list (bytes * Z 
   end.
 Definition check_expect (base name : bytes) names3 vsrc (impl : option bytes) : bool :=
   opt_eqb bytes_eqb (expect_bytes base name names3 vsrc) impl.
+
+(* hand-made bytes through all three readers: 0 = agree.  od = the structure the bytes were made from
+   (None: the bytes are damaged, the parser must refuse them) *)
+Definition synth_check (bs : bytes) (od : option sdef) (libdesc : option desc) (libname : option bytes) : Z :=
+  let parse_ok := match parse_def bs, od with
+                  | Ok d, Some d' => sdef_eqb d d'
+                  | Err _, None => true
+                  | _, _ => false
+                  end in
+  if negb parse_ok then 1 else
+  if negb (match od with Some d => opt_eqb bytes_eqb (write_def d) (Some bs) | None => true end) then 3 else
+  if negb (opt_eqb desc_eqb (read_desc bs) libdesc) then 5 else
+  if negb (opt_eqb bytes_eqb (def_name_of bs) libname) then 8 else 0.
